@@ -36,7 +36,7 @@ package main
 func main() {}
 `
 
-// The driver.  Config line:  idx form procs outercap seed n {cap k item*k}*n
+// The driver.  Config line:  idx form procs outercap seed n {cap k item*k}*n [env rounds m order*m]
 // Output: `START idx` before a run, then one hist line (see c19.go) after it.
 const driverSrc = `//go:build drv
 
@@ -86,6 +86,8 @@ type config struct {
 	form              string
 	seed              uint64
 	ins               []input
+	env, rounds       int   // environment (see start) and number of rounds (burst environments)
+	order             []int // feeder environments: the order of the operations on the inputs
 }
 
 var kindOf = map[string]string{"fmap": "fmap", "fmap_cc": "fmap", "dup_sr": "dup", "dup_r": "dup",
@@ -100,19 +102,113 @@ func ints(l []int) string {
 	return "(" + strings.Join(s, " ") + ")"
 }
 
-func run(c config, timeout time.Duration) (outs [][]int, closed []int, leaked, timedout int) {
-	runtime.GOMAXPROCS(c.procs)
-	base := runtime.NumGoroutine()
+// Environments (field env of a configuration):
+//   0  one independent producer goroutine per input (and one for the outer channel), seeded jitter
+//   1  FEEDER: a single goroutine hands all the channels over (chan-of-chan form), closes the outer
+//      channel and then performs every send and close on the inputs in the given order (c.order: one
+//      occurrence of j per item of input j plus one for its close): progress on one input depends on
+//      another input being served
+//   3  LAZY FEEDER: as 1, but channel j is handed over only just before the first operation on it
+//      (the combinator must serve the channels it already has while the outer channel is still open)
+//   2  BURST, inputs filled and closed before the call (everything finishes at the same moment);
+//      no jitter; the configuration is run c.rounds times, the first bad round (else the last) is reported
+//   4  BURST, the producers fill their channel, wait for a common start signal given right after the
+//      call, and close (all the inputs are closed at nearly the same moment)
+//   5  PRODUCERS AHEAD: as 0, but the combinator is called only when every producer has filled the buffer
+//      of its channel and is blocked in its next send (a combinator must not forward anything in the
+//      caller's goroutine, before it has returned the output nobody can receive from)
+//   6  NIL RESULTS (fmap over a function returning a channel): as 0, but the function returns a nil channel
+//      for every item divisible by 3; a nil result is an item like any other (reported as 0)
+func quietEnv(env int) bool { return env == 2 || env == 4 }
+
+// start builds the environment of one run and calls the combinator.
+func start(c config) []<-chan int {
+	quiet := quietEnv(c.env)
+	feeder := c.env == 1 || c.env == 3
+	jit := func(r *rng) {
+		if !quiet {
+			r.jitter()
+		}
+	}
+	barrier := make(chan struct{})
 	mk := func(j int) chan int { return make(chan int, c.ins[j].cap) }
+	// ahead (env 5): wait (at most 2 ms) until full() holds, then a moment more for the blocked send
+	ahead := func(full func() bool) {
+		if c.env != 5 {
+			return
+		}
+		dl := time.Now().Add(2 * time.Millisecond)
+		for !full() && time.Now().Before(dl) {
+			runtime.Gosched()
+		}
+		time.Sleep(200 * time.Microsecond)
+	}
+	filled := func(l []chan int) func() bool {
+		return func() bool {
+			for j, ch := range l {
+				if len(ch) < cap(ch) && len(ch) < len(c.ins[j].items) {
+					return false
+				}
+			}
+			return true
+		}
+	}
 	produce := func(j int, ch chan int) { // the producer of input j: its items, then close
+		if feeder {
+			return // the feeder does it
+		}
+		if c.env == 2 && cap(ch) >= len(c.ins[j].items) {
+			for _, x := range c.ins[j].items {
+				ch <- x
+			}
+			close(ch)
+			return
+		}
 		r := fork(c.seed, 10+j)
 		go func() {
 			for _, x := range c.ins[j].items {
-				r.jitter()
+				jit(r)
 				ch <- x
 			}
-			r.jitter()
+			jit(r)
+			if c.env == 4 {
+				<-barrier
+			}
 			close(ch)
+		}()
+	}
+	// feeder: one goroutine for the whole environment
+	feed := func(l []chan int, hand func(ch chan int), closeOuter func()) {
+		r := fork(c.seed, 7)
+		go func() {
+			next := make([]int, len(l))
+			handed, outerClosed := 0, false
+			handTo := func(j int) {
+				for handed <= j && handed < len(l) {
+					r.jitter()
+					hand(l[handed])
+					handed++
+				}
+				if handed == len(l) && !outerClosed {
+					r.jitter()
+					closeOuter()
+					outerClosed = true
+				}
+			}
+			if c.env == 1 {
+				handTo(len(l) - 1)
+			}
+			for _, j := range c.order {
+				handTo(j)
+				r.jitter()
+				if next[j] < len(c.ins[j].items) {
+					l[j] <- c.ins[j].items[next[j]]
+					next[j]++
+				} else {
+					close(l[j])
+				}
+			}
+			handTo(len(l) - 1)
 		}()
 	}
 	inputs := func() []chan int {
@@ -121,6 +217,10 @@ func run(c config, timeout time.Duration) (outs [][]int, closed []int, leaked, t
 			l[j] = mk(j)
 			produce(j, l[j])
 		}
+		if feeder {
+			feed(l, func(chan int) {}, func() {})
+		}
+		ahead(filled(l))
 		return l
 	}
 	recvOnly := func(l []chan int) []<-chan int {
@@ -130,27 +230,46 @@ func run(c config, timeout time.Duration) (outs [][]int, closed []int, leaked, t
 		}
 		return r
 	}
-	outer := func(l []chan int) chan (<-chan int) { // channel of channels + its producer
+	outer := func() chan (<-chan int) { // channel of channels + its producer
 		o := make(chan (<-chan int), c.outer)
-		r := fork(c.seed, 5)
-		go func() {
+		l := make([]chan int, len(c.ins))
+		for j := range l {
+			l[j] = mk(j)
+			produce(j, l[j])
+		}
+		switch {
+		case feeder:
+			feed(l, func(ch chan int) { o <- ch }, func() { close(o) })
+		case c.env == 2 && cap(o) >= len(l):
 			for _, ch := range l {
-				r.jitter()
 				o <- ch
 			}
-			r.jitter()
 			close(o)
-		}()
+		default:
+			r := fork(c.seed, 5)
+			go func() {
+				for _, ch := range l {
+					jit(r)
+					o <- ch
+				}
+				jit(r)
+				close(o)
+			}()
+		}
+		ahead(func() bool { return filled(l)() && (len(o) == cap(o) || len(o) == len(l)) })
 		return o
 	}
 	rf := fork(c.seed, 1)
 	var oc []<-chan int
 	switch c.form {
 	case "fmap":
-		oc = []<-chan int{callFmap(func(x int) int { rf.jitter(); return x + 1000 }, inputs()[0])}
+		oc = []<-chan int{callFmap(func(x int) int { jit(rf); return x + 1000 }, inputs()[0])}
 	case "fmap_cc": // g(x) = a closed channel holding x+1000; flattened again by the consumer below
 		cc := callFmapCC(func(x int) <-chan int {
-			rf.jitter()
+			jit(rf)
+			if c.env == 6 && x%3 == 0 {
+				return nil
+			}
 			ch := make(chan int, 1)
 			ch <- x + 1000
 			close(ch)
@@ -159,6 +278,10 @@ func run(c config, timeout time.Duration) (outs [][]int, closed []int, leaked, t
 		flat := make(chan int)
 		go func() {
 			for ch := range cc {
+				if ch == nil {
+					flat <- 0
+					continue
+				}
 				for v := range ch {
 					flat <- v
 				}
@@ -173,9 +296,9 @@ func run(c config, timeout time.Duration) (outs [][]int, closed []int, leaked, t
 		c1, c2 := b.DupR(inputs()[0])
 		oc = []<-chan int{c1, c2}
 	case "join_cc_r":
-		oc = []<-chan int{callJoinCC(outer(inputs()))}
+		oc = []<-chan int{callJoinCC(outer())}
 	case "join_cc_sr":
-		oc = []<-chan int{b.JoinCCS(outer(inputs()))}
+		oc = []<-chan int{b.JoinCCS(outer())}
 	case "join_sl_r":
 		oc = []<-chan int{callJoinSl(recvOnly(inputs()))}
 	case "join_sl_sr":
@@ -189,19 +312,34 @@ func run(c config, timeout time.Duration) (outs [][]int, closed []int, leaked, t
 	case "pipeline": // f(a) carries the indexes 0..n-1; g(j) is input j
 		f := func(a []int) <-chan int {
 			ch := make(chan int, c.outer)
+			if c.env == 2 && cap(ch) >= len(a) {
+				for _, x := range a {
+					ch <- x
+				}
+				close(ch)
+				return ch
+			}
 			r := fork(c.seed, 5)
 			go func() {
 				for _, x := range a {
-					r.jitter()
+					jit(r)
 					ch <- x
 				}
-				r.jitter()
+				jit(r)
 				close(ch)
 			}()
+			ahead(func() bool { return len(ch) == cap(ch) || len(ch) == len(a) })
 			return ch
 		}
+		var pre []chan int // feeder environments: the channels exist (and are being fed) before g hands them out
+		if feeder {
+			pre = inputs()
+		}
 		g := func(j int) <-chan int {
-			rf.jitter()
+			jit(rf)
+			if pre != nil {
+				return pre[j]
+			}
 			ch := mk(j)
 			produce(j, ch)
 			return ch
@@ -219,7 +357,13 @@ func run(c config, timeout time.Duration) (outs [][]int, closed []int, leaked, t
 	default:
 		panic("unknown form " + c.form)
 	}
-	// consumers: one independent goroutine per output
+	close(barrier)
+	return oc
+}
+
+// consume: one independent goroutine per output, each keeps receiving until its channel is closed.
+func consume(c config, oc []<-chan int, timeout time.Duration) (outs [][]int, closed []int, timedout int) {
+	quiet := quietEnv(c.env)
 	var mu sync.Mutex
 	got := make([][]int, len(oc))
 	cl := make([]int, len(oc))
@@ -233,7 +377,9 @@ func run(c config, timeout time.Duration) (outs [][]int, closed []int, leaked, t
 				mu.Lock()
 				got[i] = append(got[i], v)
 				mu.Unlock()
-				r.jitter()
+				if !quiet {
+					r.jitter()
+				}
 			}
 			mu.Lock()
 			cl[i] = 1
@@ -246,20 +392,8 @@ func run(c config, timeout time.Duration) (outs [][]int, closed []int, leaked, t
 	select {
 	case <-done:
 		tm.Stop()
-		// every goroutine of the combinator (and of the environment) must be gone soon
-		deadline := time.Now().Add(300 * time.Millisecond)
-		for runtime.NumGoroutine() > base {
-			if time.Now().After(deadline) {
-				leaked = 1
-				break
-			}
-			time.Sleep(100 * time.Microsecond)
-		}
 	case <-tm.C:
 		timedout = 1
-		if runtime.NumGoroutine() > base {
-			leaked = 1
-		}
 	}
 	mu.Lock()
 	for i := range got {
@@ -267,6 +401,107 @@ func run(c config, timeout time.Duration) (outs [][]int, closed []int, leaked, t
 	}
 	closed = append([]int{}, cl...)
 	mu.Unlock()
+	return
+}
+
+func eqInts(a, b []int) bool {
+	if len(a) != len(b) {
+		return false
+	}
+	for i := range a {
+		if a[i] != b[i] {
+			return false
+		}
+	}
+	return true
+}
+
+// good: the driver's own (coarse) judgement of one burst round; it only selects WHICH round is reported,
+// the reported round is judged by the evaluator like every other history.
+func good(c config, outs [][]int, closed []int) bool {
+	for _, x := range closed {
+		if x != 1 {
+			return false
+		}
+	}
+	switch kindOf[c.form] {
+	case "fmap":
+		want := make([]int, len(c.ins[0].items))
+		for i, x := range c.ins[0].items {
+			want[i] = x + 1000
+		}
+		return len(outs) == 1 && eqInts(outs[0], want)
+	case "dup":
+		return len(outs) == 2 && eqInts(outs[0], c.ins[0].items) && eqInts(outs[1], c.ins[0].items)
+	}
+	if len(outs) != 1 {
+		return false
+	}
+	pos := make([]int, len(c.ins))
+	for _, v := range outs[0] { // the items are pairwise different: greedy matching is exact
+		found := false
+		for j := range c.ins {
+			if pos[j] < len(c.ins[j].items) && c.ins[j].items[pos[j]] == v {
+				pos[j]++
+				found = true
+				break
+			}
+		}
+		if !found {
+			return false
+		}
+	}
+	for j := range c.ins {
+		if pos[j] != len(c.ins[j].items) {
+			return false
+		}
+	}
+	return true
+}
+
+func run(c config, timeout time.Duration) (outs [][]int, closed []int, leaked, timedout, rounds int) {
+	runtime.GOMAXPROCS(c.procs)
+	base := runtime.NumGoroutine()
+	n := 1
+	if quietEnv(c.env) && c.rounds > 1 {
+		n = c.rounds
+	}
+	nout := 1
+	if kindOf[c.form] == "dup" {
+		nout = 2
+	}
+	for k := 0; k < n; k++ {
+		// the call itself must return (the combinator may not block in the caller's goroutine)
+		called := make(chan []<-chan int, 1)
+		go func() { called <- start(c) }()
+		tm := time.NewTimer(timeout)
+		select {
+		case oc := <-called:
+			tm.Stop()
+			outs, closed, timedout = consume(c, oc, timeout)
+		case <-tm.C:
+			outs, closed, timedout = make([][]int, nout), make([]int, nout), 1
+		}
+		rounds = k + 1
+		if timedout == 1 || (n > 1 && !good(c, outs, closed)) {
+			break
+		}
+	}
+	if timedout == 1 {
+		if runtime.NumGoroutine() > base {
+			leaked = 1
+		}
+		return
+	}
+	// every goroutine of the combinator (and of the environment) must be gone soon
+	deadline := time.Now().Add(300 * time.Millisecond)
+	for runtime.NumGoroutine() > base {
+		if time.Now().After(deadline) {
+			leaked = 1
+			break
+		}
+		time.Sleep(100 * time.Microsecond)
+	}
 	return
 }
 
@@ -303,13 +538,17 @@ func main() {
 			c.ins = append(c.ins, in)
 			p += 2 + n[p+1]
 		}
+		if p+2 < len(n) { // env rounds m order*m
+			c.env, c.rounds = n[p], n[p+1]
+			c.order = append([]int{}, n[p+3:p+3+n[p+2]]...)
+		}
 		fmt.Fprintf(w, "START %d\n", c.idx)
 		w.Flush()
 		timeout := 3 * time.Second
 		if slow >= 3 { // the tree is failing already: do not spend 3 s on each further config
 			timeout = 300 * time.Millisecond
 		}
-		outs, closed, leaked, timedout := run(c, timeout)
+		outs, closed, leaked, timedout, rounds := run(c, timeout)
 		slow += timedout
 		nvar := 0
 		if kindOf[c.form] == "joinvar" {
@@ -322,7 +561,11 @@ func main() {
 		for _, o := range outs {
 			os_ = append(os_, ints(o))
 		}
-		fmt.Fprintf(w, "(hist %s (%d %d %d) (%s) (%s) %s 0 %d %d)\n", kindOf[c.form], nvar, c.procs, c.outer,
+		hdr := []int{nvar, c.procs, c.outer}
+		if c.env != 0 {
+			hdr = append(append(hdr, c.env, rounds), c.order...)
+		}
+		fmt.Fprintf(w, "(hist %s %s (%s) (%s) %s 0 %d %d)\n", kindOf[c.form], ints(hdr),
 			strings.Join(ins, " "), strings.Join(os_, " "), ints(closed), leaked, timedout)
 		w.Flush()
 	}
